@@ -70,6 +70,9 @@ type c19Opener struct {
 	chunk1   bool
 	// eofWithData: readers return the last bytes together with io.EOF
 	eofWithData bool
+	// errWithData: a failing read hands over the bytes it still has together with the error, once; the
+	// stream then ends (a transient error of the kind a network body or a pipe reports a single time)
+	errWithData bool
 	opened      []string
 	fired       map[string]int
 	unclosed    int
@@ -84,10 +87,15 @@ type c19Reader struct {
 	data   []byte
 	off    int
 	failAt int
+	failed bool
 }
 
 func (r *c19Reader) Read(p []byte) (int, error) {
 	if r.failAt >= 0 && r.off >= r.failAt {
+		if r.o.errWithData && r.failed {
+			return 0, io.EOF
+		}
+		r.failed = true
 		r.o.mu.Lock()
 		r.o.fired["read-error"]++
 		r.o.mu.Unlock()
@@ -108,6 +116,13 @@ func (r *c19Reader) Read(p []byte) (int, error) {
 	}
 	copy(p, r.data[r.off:r.off+n])
 	r.off += n
+	if r.o.errWithData && r.failAt >= 0 && r.off >= r.failAt && n > 0 {
+		r.failed = true
+		r.o.mu.Lock()
+		r.o.fired["read-error-with-data"]++
+		r.o.mu.Unlock()
+		return n, c19Errs[r.o.errKind%len(c19Errs)]
+	}
 	if r.o.eofWithData && r.off >= len(r.data) && r.failAt < 0 {
 		return n, io.EOF // io.Reader allows the last bytes to come together with io.EOF
 	}
@@ -223,6 +238,7 @@ func c19Explore(src *choice.Src) *core.Result {
 	// 2. a delivered fault means an error and no hash
 	if !hasNewline && len(names) > 0 && res.Violation == nil {
 		op := &c19Opener{files: files, fired: map[string]int{}, openErr: map[string]bool{}, readErr: map[string]int{}, chunk1: src.Bool(1, 3), errKind: src.Intn(len(c19Errs))}
+		op.errWithData = src.Bool(1, 3)
 		for i, n := 0, src.Range(1, 2); i < n; i++ {
 			name := names[src.Intn(len(names))]
 			if src.Bool(1, 2) {
@@ -337,6 +353,36 @@ func c19ZipDir(src *choice.Src, res *core.Result) {
 	case 4:
 		dirForm = out + "/."
 	}
+	// HashDir hands the list it built to a hash function the caller supplies. In half of the runs that
+	// function first hashes a second directory (what another goroutine of the caller would be doing at
+	// that moment) and only then consumes its own list.
+	hashFn := dirhash.Hash(dirhash.Hash1)
+	nestedTrouble := ""
+	if src.Bool(1, 2) {
+		rel := "n.txt"
+		oprefix := "other.example/n@v0.0.1"
+		if src.Bool(1, 2) && len(content) > 0 {
+			var keys []string
+			for k := range content {
+				keys = append(keys, k)
+			}
+			sort.Strings(keys)
+			rel = strings.TrimPrefix(keys[src.Intn(len(keys))], prefix+"/")
+			oprefix = prefix
+		}
+		other := filepath.Join(sb.root, "y", "dir")
+		os.MkdirAll(filepath.Dir(filepath.Join(other, filepath.FromSlash(rel))), 0o755)
+		os.WriteFile(filepath.Join(other, filepath.FromSlash(rel)), []byte("other\n"), 0o644)
+		wantOther := refH1(map[string]string{oprefix + "/" + rel: "other\n"})
+		hashFn = func(files []string, open func(string) (io.ReadCloser, error)) (string, error) {
+			h, err := dirhash.HashDir(other, oprefix, dirhash.Hash1)
+			if err != nil || h != wantOther {
+				nestedTrouble = fmt.Sprintf("HashDir of the second directory (one file %q under %q) gave %q, %v; want %s", rel, oprefix, h, err, wantOther)
+			}
+			return dirhash.Hash1(files, open)
+		}
+		res.Probes["hashdir-inside-hashdir"]++
+	}
 	var hd string
 	var errd error
 	func() {
@@ -345,8 +391,12 @@ func c19ZipDir(src *choice.Src, res *core.Result) {
 				res.Fail("C19", "no-panic", "HashDir panicked", "dir %q: %v", dirForm, e)
 			}
 		}()
-		hd, errd = dirhash.HashDir(dirForm, prefix, dirhash.Hash1)
+		hd, errd = dirhash.HashDir(dirForm, prefix, hashFn)
 	}()
+	if nestedTrouble != "" {
+		res.Fail("C19", "hash1-is-documented-formula", "hashing a directory while another HashDir call is in progress gives a wrong result", "%s", nestedTrouble)
+		return
+	}
 	res.Probes["zip-and-dir-hashed"]++
 	if res.Violation != nil {
 		return
@@ -369,7 +419,7 @@ func init() {
 		ID:      "C19",
 		Entries: []core.Entry{{Name: "explore", Run: c19Explore}},
 		Explore: []string{"explore"},
-		Rule: "explore: seeded file sets of 0-8 names from a hostile alphabet (percent signs and format verbs, double spaces, hex-looking prefixes, prefixes of each other, Unicode, newlines at any position), 2-4 listing orders, open/read faults placed on chosen files, one-byte readers, a near-identical second set for injectivity; a third of the runs hash a Create-d zip and its Unzip-ped directory (named in 5 equivalent ways). " +
+		Rule: "explore: seeded file sets of 0-8 names from a hostile alphabet (percent signs and format verbs, double spaces, hex-looking prefixes, prefixes of each other, Unicode, newlines at any position), 2-4 listing orders, open/read faults placed on chosen files (also a read error handed over together with the remaining bytes, once, followed by end of stream), one-byte readers, a near-identical second set for injectivity; a third of the runs hash a Create-d zip and its Unzip-ped directory (named in 5 equivalent ways; in half of these a second HashDir of another directory runs inside the caller-supplied hash function, between the listing and its use). " +
 			"Distinct = (names, fault kinds); non-trivial = at least one file.",
 		Real:        []string{"dirhash.Hash1, HashDir, DirFiles, HashZip", "zip.Create / Unzip (as producers)"},
 		Stub:        []string{"the open callback and its readers", "listing order", "sandbox directory on the real file system", "reference formula"},
